@@ -887,8 +887,8 @@ def run(run, ctx):
         one_case(run, ctx.rng(PID, i))
 
 
-# about 1/4 of what the quick tier observes on the repaired tree (seed 12345;
-# seeds 0-3 are within a few percent); the thorough tier scales with its
+# about 1/4 of what the quick tier observes on the repaired tree (smallest of
+# seeds 0, 1, 2, 3, 12345 for the rare classes); the thorough tier scales with its
 # number of scenarios
 FLOORS_QUICK = {
     "outcome_compared": 3900, "received_objects_compared": 2600,
@@ -907,7 +907,7 @@ FLOORS_QUICK = {
     "ref:raises:BodyError": 290, "ref:raises:SchemaErrors": 360,
     "check_types:annotation:optional": 36, "check_types:annotation:union": 31,
     "accessor:equal-schema-valid-frame:judged": 78,
-    "accessor:different-schema:judged": 130,
+    "accessor:different-schema:judged": 100,
     "backend:polars": 76,
     # the program classes in which defects were found and repaired
     "class:int-getter:df-by-keyword": 150,
@@ -915,10 +915,10 @@ FLOORS_QUICK = {
     "class:str-getter:positional-call-with-varargs": 180,
     "class:input-getter:method-called-one-arg-short": 370,
     "class:check_types:exactly-one-star-arg": 150,
-    "class:check_types:keyword-named-like-varkw": 16,
-    "class:check_types:union-lazy": 53,
+    "class:check_types:keyword-named-like-varkw": 11,
+    "class:check_types:union-lazy": 41,
     "class:check_types:union-pandas": 210,
-    "class:check_types:union-polars": 32,
+    "class:check_types:union-polars": 27,
 }
 
 
